@@ -457,20 +457,30 @@ def report(a, m, dump, q, c, out):
             'status %s, specification %s for %s' % (c['status_real'], c['status_lean'], c['url']), q, c)
         return
     kind = 'extra' if c['extra'] else ('missing' if c['missing'] else 'dup')
-    qm = minimise(a, m, q, kind)
-    cm = compare(a, m, qm)
-    if not disagree(cm) or cm['status_real'] != 200:
-        qm, cm = q, c
-    feats = '+'.join(sorted(query_features(qm)))
+    # the first few unexplained disagreements of a worker are minimised (query parts dropped while the disagreement
+    # persists) and carry the remaining features in their signature; later ones are classified as they are
+    global _MINIMISED
+    if _MINIMISED < 2:
+        _MINIMISED += 1
+        qm = minimise(a, m, q, kind)
+        cm = compare(a, m, qm)
+        if not disagree(cm) or cm['status_real'] != 200:
+            qm, cm = q, c
+        feats = ':' + '+'.join(sorted(query_features(qm)))
+    else:
+        qm, cm, feats = q, c, ''
     if cm['extra']:
         rule = classify_extra(m, qm, sorted(cm['extra'])[0])
-        add('c03:extra:%s:%s' % (rule, feats),
+        add('c03:extra:%s%s' % (rule, feats),
             'returned but not described by the request: %s' % json.dumps(cands.show(sorted(cm['extra'])[0])), qm, cm)
     elif cm['missing']:
-        add('c03:missing:%s' % feats,
+        add('c03:missing%s' % feats,
             'described by the request but not returned: %s' % json.dumps(cands.show(sorted(cm['missing'])[0])), qm, cm)
     else:
-        add('c03:duplicate:%s' % feats, 'the same (allocations, mappings) returned twice', qm, cm)
+        add('c03:duplicate%s' % feats, 'the same (allocations, mappings) returned twice', qm, cm)
+
+
+_MINIMISED = 0
 
 
 # ------------------------------------------------------------------------------------------------
